@@ -244,6 +244,8 @@ def write_evidence(pid, tier, meta, recs, wall, n_viol):
         "reachability_witnesses": sum(1 for r in recs if r.get("reachable") is True),
         "translator_validations_ok": sum(1 for r in recs if r.get("tv") is True),
         "storage_type_variants_replayed": sum(r.get("dtype_variants", 0) for r in recs),
+        "abstraction_candidates_redecided_in_nra": sum(r.get("refinements", 0) for r in recs),
+        "spurious_candidates_refuted_in_nra": sum(r.get("spurious_candidates_refuted", 0) for r in recs),
         "cross_solver": {k: {"agree": sum((r.get("cross_solver") or {}).get(k, {}).get("agree", 0) for r in recs),
                              "unknown_or_timeout": sum((r.get("cross_solver") or {}).get(k, {}).get("unknown", 0) for r in recs)}
                          for k in ("z3-4.8.12", "cvc5")} | {"goal_queries_skipped_over_per_obligation_budget": sum((r.get("cross_solver") or {}).get("skipped_over_budget", 0) for r in recs)},
